@@ -1,6 +1,7 @@
 INIT Init
 NEXT Next
-CONSTANTS YMin = -401 YMax = 2401
+CONSTANTS YMin <- YMinFull
+          YMax = 2401
 INVARIANT Inverse
 INVARIANT WeekRule
 INVARIANT Lengths
